@@ -70,6 +70,8 @@ MUST_OBSERVE = [
     "daemon_deliveries_compared",
     "cancellations_applied",
     "duplicate_link_cases",
+    "future_resumes_compared",
+    "source_probe_cross_deliveries",
 ]
 
 NS = 1_000_000_000
@@ -361,13 +363,6 @@ def _decorate(rng: random.Random, case: dict, profile: str, weff: float, last_pi
         if rng.random() < 0.3:
             rng.shuffle(case["links"])
 
-    times = _script_times(case)
-    tmax = max(t for t, _c, _e in times.values())
-    info_parent = {}
-    for pid_s, r in case["react"].items():
-        for _d, _tgt, _typ, cpid in r["out"]:
-            info_parent[cpid] = int(pid_s)
-
     def descendants(root):
         out, todo = [], [root]
         while todo:
@@ -377,6 +372,73 @@ def _decorate(rng: random.Random, case: dict, profile: str, weff: float, last_pi
             if r:
                 todo.extend(o[3] for o in r["out"])
         return out
+
+    # -- partition members registered as sources= / probes= (targets of local and cross-partition events)
+    if profile == "members" or rng.random() < 0.15:
+        roles = {}
+        for e in part_of:
+            r = rng.random()
+            if r < (0.35 if profile == "members" else 0.2):
+                roles[e] = "source"
+            elif r < (0.55 if profile == "members" else 0.3):
+                roles[e] = "probe"
+        if profile == "members":
+            # make sure at least one target of a cross-partition event is a source or probe
+            t0 = _script_times(case)
+            cross_targets = [
+                o[1]
+                for pid_s, r in case["react"].items()
+                for o in r["out"]
+                if int(pid_s) in t0 and part_of[t0[int(pid_s)][2]] != part_of[o[1]]
+            ]
+            if cross_targets and not any(roles.get(e) for e in cross_targets):
+                roles[rng.choice(cross_targets)] = rng.choice(["source", "probe"])
+        if roles:
+            case["roles"] = roles
+
+    # -- processes that park on a SimFuture, resolved by another delivery in the same partition
+    if profile == "futures" or rng.random() < (0.4 if profile == "independent" else 0.15):
+        t0 = _script_times(case)
+        by_part0: dict[int, list] = {}
+        for pid, (t, _c, e) in t0.items():
+            by_part0.setdefault(part_of[e], []).append(pid)
+        tainted: set[int] = set()
+        used: set[int] = set()
+        waits, resolves = {}, {}
+        order = sorted(t0)
+        rng.shuffle(order)
+        want = rng.choice([1, 2, 3, 5]) if profile == "futures" else rng.choice([1, 2])
+        for w in order:
+            if len(waits) >= want:
+                break
+            if w in tainted or w in used:
+                continue
+            tw, _c, ew = t0[w]
+            doomed = set(descendants(w))
+            if (doomed - {w}) & used:
+                continue  # an already chosen resolver or waiter must stay independent of this future
+            cands = [x for x in by_part0[part_of[ew]] if x not in tainted and x not in doomed and x not in used and str(x) not in waits]
+            if cands and rng.random() < 0.5:
+                rsv = rng.choice(cands)
+            else:  # a dedicated resolving delivery: later (possibly windows later), same instant, or earlier
+                tr = tw + rng.choice([0, 0, 1, w_ns // 2, w_ns, w_ns + 1, 3 * w_ns, rng.randrange(0, 4 * w_ns + 1), -1, -(w_ns // 2)])
+                tr = max(tr, start_ns)
+                rsv = new_pid()
+                case["init"].append([tr, rng.choice(case["parts"][part_of[ew]]), "R", rsv])
+            fid = f"f{len(waits)}"
+            waits[str(w)] = fid
+            resolves.setdefault(str(rsv), []).append(fid)
+            used.update((w, rsv))
+            tainted.update(doomed - {w})
+        if waits:
+            case["waits"], case["resolves"] = waits, resolves
+
+    times = _script_times(case)
+    tmax = max(t for t, _c, _e in times.values())
+    info_parent = {}
+    for pid_s, r in case["react"].items():
+        for _d, _tgt, _typ, cpid in r["out"]:
+            info_parent[cpid] = int(pid_s)
 
     # -- daemon events: only with a finite end_time (see ASSUMPTIONS: auto-termination is not compared)
     want_daemon = profile == "daemon" or rng.random() < 0.2
@@ -607,15 +669,21 @@ def _entity_cls():
     if _ENTITY_CLS is not None:
         return _ENTITY_CLS
     Entity, Event, _, Duration, _, _, _, _ = _lib()
+    from happysimulator.core.sim_future import SimFuture
+    from happysimulator.load.source import Source
 
     class ScriptEntity(Entity):
         """Stateless: the reaction depends on the payload id only (unique per event)."""
 
         def __init__(self, name, part, react, part_of, plog, seq_latency, flags=None, cancels=None, registry=None):
-            super().__init__(name)
+            Entity.__init__(self, name)  # explicit: the Source variant must not run Source.__init__
             self._flags = flags or {}  # pid -> {"daemon": bool, "cancelled": bool}
             self._cancels = cancels or {}  # pid of the cancelling delivery -> [pids of pending local events]
             self._registry = registry if registry is not None else {}  # pid -> Event, per partition (harness bookkeeping)
+            self._waits = {}  # pid of a delivery whose process parks -> future id
+            self._resolves = {}  # pid of a delivery -> [future ids it resolves]
+            self._futs = {}  # future id -> SimFuture, per partition
+            self.rlog = []  # (clock.now ns, pid, value) at every resumption from a future
             self.peers = {}  # public on purpose: the library's validation walks it
             self._hidden_peers = {}  # config family only: references validation cannot see
             self.log = []  # (clock.now ns, event.time ns, type, pid)
@@ -625,7 +693,14 @@ def _entity_cls():
             self._plog = plog
             self._seq_latency = seq_latency  # {(src,dst): Duration} applied by the entity itself (sequential run)
 
+        _caps = None  # class attribute: the _CapProbe of the run in progress
+
         def handle_event(self, event):
+            caps = ScriptEntity._caps
+            if caps is not None:
+                caps.n += 1
+                if caps.n > caps.total_cap:
+                    raise DeliveryBudget(f"{caps.n} deliveries")
             pid = event.context["metadata"]["pid"]
             now = self._clock.now.nanoseconds
             self.log.append((now, event.time.nanoseconds, event.event_type, pid))
@@ -635,18 +710,33 @@ def _entity_cls():
                 if pending is not None:
                     pending.cancel()
                     self._plog.append(("c", now, tp))
+            for fid in self._resolves.get(str(pid), ()):
+                fut = self._futs.get(fid)
+                if fut is None:
+                    fut = self._futs[fid] = SimFuture()
+                fut.resolve(pid)
             r = self._react.get(str(pid))
+            fid = self._waits.get(str(pid))
+            if fid is not None or (r and r.get("y") is not None):
+                return self._process(r, pid, fid)
             if not r:
                 return None
-            if r.get("y") is not None:
-                return self._process(r, pid)
             return self._emit(r)
 
-        def _process(self, r, pid):
-            yield r["y"]
-            # the resumption is an executed event too (it moves the partition clock)
-            self._plog.append(("r", self._clock.now.nanoseconds, pid))
-            return self._emit(r)
+        def _process(self, r, pid, fid):
+            if r and r.get("y") is not None:
+                yield r["y"]
+                # the resumption is an executed event too (it moves the partition clock)
+                self._plog.append(("r", self._clock.now.nanoseconds, pid))
+            if fid is not None:
+                fut = self._futs.get(fid)
+                if fut is None:
+                    fut = self._futs[fid] = SimFuture()
+                value = yield fut  # parks; resumed by the delivery that resolves the future (or at once)
+                now = self._clock.now.nanoseconds
+                self.rlog.append((now, pid, value))
+                self._plog.append(("r", now, pid))
+            return self._emit(r) if r else None
 
         def _emit(self, r):
             now = self._clock.now
@@ -672,6 +762,23 @@ def _entity_cls():
                 out.append(ev)
             return out
 
+    class ScriptSource(ScriptEntity, Source):
+        """The same script entity registered under sources= / probes= of a partition: a load generator or
+        probe that accepts (cross-partition) control events.  It never ticks by itself (finite by construction)."""
+
+        def __init__(self, *a, **kw):
+            ScriptEntity.__init__(self, *a, **kw)
+            self._event_provider = None
+            self._time_provider = None
+            self._generated_count = 0
+
+        def start(self, start_time):
+            return []
+
+        def downstream_entities(self):
+            return []
+
+    ScriptEntity.SourceVariant = ScriptSource
     _ENTITY_CLS = ScriptEntity
     return ScriptEntity
 
@@ -690,10 +797,15 @@ def _build_entities(case, sequential: bool):
                 seq_latency[(a, b)] = ConstantLatency(const).get_latency(Instant.Epoch)
     plogs = [[] for _ in case["parts"]]
     regs = [{} for _ in case["parts"]]
+    futs = [{} for _ in case["parts"]]
     ents = {}
     for p, names in enumerate(case["parts"]):
         for n in names:
-            ents[n] = cls(n, p, case["react"], part_of, plogs[p], seq_latency, case.get("flags"), case.get("cancels"), regs[p])
+            klass = cls.SourceVariant if (case.get("roles") or {}).get(n) in ("source", "probe") else cls
+            ents[n] = klass(n, p, case["react"], part_of, plogs[p], seq_latency, case.get("flags"), case.get("cancels"), regs[p])
+            ents[n]._waits = case.get("waits") or {}
+            ents[n]._resolves = case.get("resolves") or {}
+            ents[n]._futs = futs[p]
     # peers: exactly the entities this one ever sends to (so validation sees only real references)
     target_of = {pid: e for _t, e, _typ, pid in case["init"]}
     for r in case["react"].values():
@@ -706,6 +818,16 @@ def _build_entities(case, sequential: bool):
         for _d, tgt, _typ, _cpid in r["out"]:
             ents[src].peers[tgt] = ents[tgt]
     return ents, plogs, part_of
+
+
+def _members(case, ents, names):
+    """kwargs entities= / sources= / probes= for one Simulation or SimulationPartition."""
+    roles = case.get("roles") or {}
+    return {
+        "entities": [ents[n] for n in names if roles.get(n) not in ("source", "probe")],
+        "sources": [ents[n] for n in names if roles.get(n) == "source"],
+        "probes": [ents[n] for n in names if roles.get(n) == "probe"],
+    }
 
 
 def _init_events(case, ents):
@@ -745,6 +867,35 @@ class _TTCapture(logging.Handler):
 
 class WindowCap(Exception):
     pass
+
+
+class DeliveryBudget(Exception):
+    pass
+
+
+class _CapProbe:
+    """Delivery cap without touching engine internals (the shared EngineProbe reads private names of
+    core/sim_future.py, which a seeded change legitimately removed): every delivery goes to a script entity,
+    which counts itself here.  Scripts are finite trees, so the cap only fires when the library multiplies events."""
+
+    def __init__(self, total_cap=200000):
+        self.total_cap = total_cap
+        self.n = 0
+
+    def __enter__(self):
+        _entity_cls()._caps = self
+        return self
+
+    def __exit__(self, *exc):
+        _entity_cls()._caps = None
+        return False
+
+    def run(self, _sim, fn=None) -> str:
+        try:
+            (fn or _sim.run)()
+            return "completed"
+        except DeliveryBudget:
+            return "budget"
 
 
 class _BarrierWatch:
@@ -845,23 +996,37 @@ def _lib_frame(exc: BaseException) -> str | None:
 
 
 def _script_times(case) -> dict:
-    """pid -> (due time, creation time, target entity) if every ancestor is delivered (generator-side arithmetic)."""
+    """pid -> (due time, creation time, target entity) if every ancestor is delivered (generator-side arithmetic).
+    A process that waits on a future emits at max(own time, time of the resolving delivery); resolvers never
+    depend on a future themselves (generator invariant), so two passes suffice."""
     const_of = {(a, b): c for a, b, _l, c in case["links"]}
     part_of = {e: p for p, ents in enumerate(case["parts"]) for e in ents}
-    out = {pid: (t, None, e) for t, e, _typ, pid in case["init"]}
-    pending = list(out)
-    while pending:
-        pid = pending.pop()
-        r = case["react"].get(str(pid))
-        if not r:
-            continue
-        t, _c, ent = out[pid]
-        st = t + (int(r["y"] * NS) if r.get("y") is not None else 0)
-        for d, tgt, _typ, cpid in r["out"]:
-            c = const_of.get((part_of[ent], part_of[tgt]))
-            out[cpid] = (st + (int(c * NS) if c is not None else d), st, tgt)
-            pending.append(cpid)
-    return out
+    waits = case.get("waits") or {}
+    resolver_of = {fid: int(r) for r, fids in (case.get("resolves") or {}).items() for fid in fids}
+
+    def walk(resolved_at):
+        out = {pid: (t, None, e) for t, e, _typ, pid in case["init"]}
+        pending = list(out)
+        while pending:
+            pid = pending.pop()
+            r = case["react"].get(str(pid))
+            if not r:
+                continue
+            t, _c, ent = out[pid]
+            st = t + (int(r["y"] * NS) if r.get("y") is not None else 0)
+            fid = waits.get(str(pid))
+            if fid is not None and resolved_at is not None:
+                rt = resolved_at.get(resolver_of.get(fid))
+                if rt is not None:
+                    st = max(st, rt[0])
+            for d, tgt, _typ, cpid in r["out"]:
+                c = const_of.get((part_of[ent], part_of[tgt]))
+                out[cpid] = (st + (int(c * NS) if c is not None else d), st, tgt)
+                pending.append(cpid)
+        return out
+
+    first = walk(None)
+    return walk(first) if waits else first
 
 
 def _expected_windows(case) -> int:
@@ -874,8 +1039,6 @@ def _expected_windows(case) -> int:
 
 def run_sequential(case, groups=None):
     """Reference: ONE Simulation over all entities (groups=None) or one per partition."""
-    from hsverif.probe import EngineProbe
-
     _, Event, Simulation, _, Instant, *_ = _lib()
     ents, plogs, part_of = _build_entities(case, sequential=True)
     end = None if case["end_ns"] is None else Instant(case["end_ns"])
@@ -884,9 +1047,9 @@ def run_sequential(case, groups=None):
     lg.addHandler(tt)
     status = "completed"
     try:
-        with EngineProbe(instant_cap=20000, total_cap=200000, record_emissions=False) as probe:
+        with _CapProbe() as probe:
             if groups is None:
-                sim = Simulation(start_time=Instant(case["start_ns"]), end_time=end, entities=list(ents.values()))
+                sim = Simulation(start_time=Instant(case["start_ns"]), end_time=end, **_members(case, ents, list(ents)))
                 for _e, ev in _init_events(case, ents):
                     sim.schedule(ev)
                 status = probe.run(sim)
@@ -894,7 +1057,7 @@ def run_sequential(case, groups=None):
                 sims = []
                 for names in case["parts"]:
                     sims.append(
-                        Simulation(start_time=Instant(case["start_ns"]), end_time=end, entities=[ents[n] for n in names])
+                        Simulation(start_time=Instant(case["start_ns"]), end_time=end, **_members(case, ents, names))
                     )
                 for e, ev in _init_events(case, ents):
                     sims[part_of[e]].schedule(ev)
@@ -904,12 +1067,16 @@ def run_sequential(case, groups=None):
                         status = st
     finally:
         lg.removeHandler(tt)
-    return {"logs": {n: e.log for n, e in ents.items()}, "plogs": plogs, "tt": tt.records, "status": status}
+    return {
+        "logs": {n: e.log for n, e in ents.items()},
+        "rlogs": {n: e.rlog for n, e in ents.items()},
+        "plogs": plogs,
+        "tt": tt.records,
+        "status": status,
+    }
 
 
 def run_parallel(case, perturb_seed=None):
-    from hsverif.probe import EngineProbe
-
     _, Event, _, _, Instant, ParallelSimulation, PartitionLink, SimulationPartition = _lib()
     ents, plogs, part_of = _build_entities(case, sequential=False)
     links = []
@@ -920,7 +1087,7 @@ def run_parallel(case, perturb_seed=None):
 
             dist = ConstantLatency(const)
         links.append(PartitionLink(f"P{a}", f"P{b}", lat, latency=dist))
-    partitions = [SimulationPartition(name=f"P{p}", entities=[ents[n] for n in names]) for p, names in enumerate(case["parts"])]
+    partitions = [SimulationPartition(name=f"P{p}", **_members(case, ents, names)) for p, names in enumerate(case["parts"])]
     out = {"exc": None, "exc_type": None, "exc_text": None, "status": "completed", "barriers": [], "lines": 0, "yields": 0}
     tt = _TTCapture()
     lg = logging.getLogger("happysimulator.core.simulation")
@@ -941,7 +1108,7 @@ def run_parallel(case, perturb_seed=None):
             )
         for e, ev in _init_events(case, ents):
             ps.schedule(ev, partition=f"P{part_of[e]}")
-        with EngineProbe(instant_cap=20000, total_cap=200000) as probe, watch:
+        with _CapProbe() as probe, watch:
             try:
                 if pert is not None:
                     with pert:
@@ -950,7 +1117,6 @@ def run_parallel(case, perturb_seed=None):
                     out["status"] = probe.run(None, ps.run)
             except WindowCap:
                 out["status"] = "window-cap"
-            out["past_emissions"] = len(probe.past_emissions)
     except Exception as exc:  # noqa: BLE001
         where = _lib_frame(exc)
         if where is None:
@@ -965,6 +1131,7 @@ def run_parallel(case, perturb_seed=None):
         out["lines"], out["yields"] = pert.lines, pert.yields
     out["barriers"] = watch.barriers  # also when the run raised: loss attribution needs them
     out["logs"] = {n: e.log for n, e in ents.items()}
+    out["rlogs"] = {n: e.rlog for n, e in ents.items()}
     out["plogs"] = plogs
     out["tt"] = tt.records
     return out
@@ -999,8 +1166,11 @@ def _restrict(log, end_ns):
     return [r for r in log if r[0] <= end_ns]
 
 
-def canonical(logs, end_ns):
-    return {n: sorted(_restrict(l, end_ns)) for n, l in logs.items()}
+def canonical(logs, end_ns, rlogs=None):
+    out = {n: sorted(_restrict(l, end_ns)) for n, l in logs.items()}
+    for n, l in (rlogs or {}).items():
+        out["resume:" + n] = sorted(_restrict(l, end_ns), key=repr)
+    return out
 
 
 def _link_kind(case):
@@ -1123,6 +1293,18 @@ def check_parallel_against(case, par, seq, res: Result, tag: str):
             explained.add(local[0])
         res.add("event-discarded-as-past", comp_sim, "local-event" if local else "unmatched-event", detail)
 
+    # -- process resumptions from futures: per process (= waiting delivery) the same resume time and value
+    waits = case.get("waits") or {}
+    seq_res = {pid: (now, val) for l in seq.get("rlogs", {}).values() for now, pid, val in _restrict(l, end_ns)}
+    par_res: dict = {}
+    for n, l in par.get("rlogs", {}).items():
+        for now, pid, val in _restrict(l, end_ns):
+            par_res.setdefault(pid, []).append((now, val))
+    res.count("future_resumes_compared", len(seq_res))
+
+    def resume_ok(pid):
+        return str(pid) not in waits or par_res.get(pid, [None])[0] == seq_res.get(pid)
+
     # -- equivalence with the sequential run (deliveries with timestamp <= end_time)
     n_cmp = 0
     missing_roots, extra, moved, dup = [], [], [], []
@@ -1138,7 +1320,7 @@ def check_parallel_against(case, par, seq, res: Result, tag: str):
             a = info[pid]["parent"]
             consequential = False
             while a is not None:
-                if a not in par_restricted or par_restricted[a][0][0] != seq_deliv.get(a, (None,))[0]:
+                if a not in par_restricted or par_restricted[a][0][0] != seq_deliv.get(a, (None,))[0] or not resume_ok(a):
                     consequential = True
                     break
                 a = info[a]["parent"]
@@ -1150,14 +1332,34 @@ def check_parallel_against(case, par, seq, res: Result, tag: str):
                 dup.append(pid)
             if got[0] != (t, typ, n):
                 a = info[pid]["parent"]
-                if a is None or (a in par_restricted and a in seq_deliv and par_restricted[a][0][0] == seq_deliv[a][0]):
+                if a is None or (a in par_restricted and a in seq_deliv and par_restricted[a][0][0] == seq_deliv[a][0] and resume_ok(a)):
                     moved.append(pid)
     for pid, got in par_restricted.items():
         if pid not in seq_deliv:
             a = info.get(pid, {}).get("parent")
-            if a is None or a in seq_deliv:
+            if a is None or (a in seq_deliv and resume_ok(a)):
                 extra.append(pid)
     res.count("deliveries_compared", n_cmp)
+    if par["status"] == "completed":
+        resolver_of = {fid: int(r) for r, fids in (case.get("resolves") or {}).items() for fid in fids}
+        n_bad = 0
+        for pid in sorted(set(seq_res) | set(par_res)):
+            got, want = par_res.get(pid, []), seq_res.get(pid)
+            if got == ([want] if want is not None else []):
+                continue
+            # root cause only: the waiting delivery and the resolving delivery happened as in the sequential run
+            deps = [pid, resolver_of.get(waits.get(str(pid)))]
+            if any(d is not None and (par_restricted.get(d, [(None,)])[0][0] != seq_deliv.get(d, (None,))[0]) for d in deps):
+                continue
+            n_bad += 1
+            if n_bad <= 3:
+                kind = "missing" if not got else "duplicated" if len(got) > 1 else "extra" if want is None else "time-or-value-differs"
+                res.add(
+                    "process-resume-differs",
+                    "SimFuture",
+                    f"resume-{kind};" + ("independent" if not case["links"] else "linked"),
+                    f"[{tag}] process started by pid {pid}: sequential resume {want}, parallel {got} (resolver pid {deps[1]})",
+                )
     res.count("cross_deliveries_checked", sum(1 for pid in seq_deliv if info[pid]["cross"]))
     res.count("events_monitored", sum(len(l) for l in par["logs"].values()))
     if par["status"] == "completed":
@@ -1206,7 +1408,7 @@ def check_parallel_against(case, par, seq, res: Result, tag: str):
                     "sent-but-never-delivered;" + _link_kind(case),
                     f"[{tag}] pid {pid} sent from P{sp} at {stime} due {arr} <= end {end_ns}: no delivery, no discard record",
                 )
-    return canonical(par["logs"], end_ns)
+    return canonical(par["logs"], end_ns, par.get("rlogs"))
 
 
 def _arrival(case, info, send_pos, pid):
@@ -1265,6 +1467,13 @@ def run_linked(case: dict) -> Result:
         sum(1 for pl in seq["plogs"] for r in pl if r[0] == "c") + sum(1 for f in fl.values() if f.get("cancelled")),
     )
     res.count("duplicate_link_cases", int(len({(l[0], l[1]) for l in case["links"]}) < len(case["links"])))
+    roles = case.get("roles") or {}
+    if roles:
+        info0, _ = _script_index(case)
+        res.count(
+            "source_probe_cross_deliveries",
+            sum(1 for n, l in seq["logs"].items() if roles.get(n) for r in _restrict(l, case["end_ns"]) if info0[r[3]]["cross"]),
+        )
     par0 = run_parallel(case)
     order0 = [[r[2] for r in pl if r[0] == "d"] for pl in par0["plogs"]]
     base = check_parallel_against(case, par0, seq, res, "default-schedule")
@@ -1335,6 +1544,7 @@ def run_independent(case: dict) -> Result:
         n = sum(len(l) for l in par["logs"].values())
         res.count("deliveries_compared", n)
         res.count("independent_deliveries_compared", n)
+        res.count("future_resumes_compared", sum(len(l) for l in par["rlogs"].values()))
         res.count("events_monitored", n)
         if par["tt"] or ref["tt"]:
             res.add("event-discarded-as-past", "Simulation", "independent-partitions", f"[{tag}] {par['tt'][:2]}")
@@ -1397,9 +1607,7 @@ def run_config(case: dict) -> Result:
             warnings.simplefilter("ignore")
             ps = ParallelSimulation(partitions, end_time=Instant.from_seconds(5 * case["lat"] + 1), links=links, window_size=case["window"])
         ps.schedule(Event(time=Instant(1), event_type="A", target=ents["e0"], context={"metadata": {"pid": 1}}), partition="P0")
-        from hsverif.probe import EngineProbe
-
-        with EngineProbe(instant_cap=20000, total_cap=100000) as probe, _BarrierWatch(plogs, 5000):
+        with _CapProbe(100000) as probe, _BarrierWatch(plogs, 5000):
             try:
                 probe.run(None, ps.run)
             except WindowCap:
@@ -1513,34 +1721,40 @@ FAMILIES = {
     "daemon": Family("daemon", gen_profile("daemon"), run_linked, shrink=shrink_script, case_timeout=120.0),
     "cancel": Family("cancel", gen_profile("cancel"), run_linked, shrink=shrink_script, case_timeout=120.0),
     "duplinks": Family("duplinks", gen_profile("duplinks"), run_linked, shrink=shrink_script, case_timeout=120.0),
+    "futures": Family("futures", gen_profile("futures"), run_linked, shrink=shrink_script, case_timeout=120.0),
+    "members": Family("members", gen_profile("members"), run_linked, shrink=shrink_script, case_timeout=120.0),
     "independent": Family("independent", gen_independent, run_independent, case_timeout=120.0),
     "config": Family("config", gen_config, run_config, case_timeout=60.0),
 }
 
 BUDGET = {
     "quick": {
-        "linked": 130,
-        "boundary": 100,
+        "linked": 120,
+        "boundary": 90,
         "idle": 24,
         "far_epoch": 40,
         "latency_link": 40,
         "chain": 50,
-        "daemon": 50,
-        "cancel": 60,
+        "daemon": 40,
+        "cancel": 50,
         "duplinks": 20,
+        "futures": 50,
+        "members": 40,
         "independent": 50,
         "config": 30,
     },
     "thorough": {
-        "linked": 1700,
-        "boundary": 1300,
+        "linked": 1500,
+        "boundary": 1200,
         "idle": 150,
         "far_epoch": 500,
         "latency_link": 500,
         "chain": 700,
-        "daemon": 600,
-        "cancel": 700,
+        "daemon": 500,
+        "cancel": 600,
         "duplinks": 200,
+        "futures": 600,
+        "members": 400,
         "independent": 600,
         "config": 100,
     },
